@@ -87,5 +87,5 @@ func crashMatcherAlive() bool {
 		return false
 	}
 	crashSites(fc, "C10.no-crash-site")
-	return countVerdict(fc, "C10.no-crash-site", Violated) >= 3 // MustCompile, panic, unclosed pipe goroutine
+	return countVerdict(fc, "C10.no-crash-site", Violated) >= 5 // MustCompile, panic, two never-closing goroutines, one error-dropping goroutine
 }
